@@ -48,7 +48,7 @@ def case_st(draw, tier):
         vc = draw(c01.vector_case([fmt], "quick", max_sources=4, transforms=False, p_grad=0.35))
         vc["cfg"].update(upem=1024, ascender=950, descender=-250, width=draw(st.sampled_from([1275, 0, 1000])), reuse_tolerance=0.1, clipbox_quantization=None)
         return {"kind": "nano", "fmt": fmt, "vc": vc, "flags": flags}
-    third = draw(c13.font_case().filter(lambda c: not c["unsupported"]))
+    third = draw(st.one_of(c13.font_case().filter(lambda c: not c["unsupported"]), c13.shared_pool_case()))
     if draw(st.sampled_from([False, False, True])):
         third["own_outline"] = True
         solid = {"Format": 2, "PaletteIndex": 0, "Alpha": 1.0}
